@@ -228,8 +228,8 @@ func reexport(n *chain.Node, ctx sdk.Context) (out map[string]json.RawMessage, e
 // its signature is listed as status=known.
 type c12Counters struct {
 	roundTrips, zeroHeight, queries int
-	skipped                          map[string]int
-	sectionsNonEmpty                 int
+	skipped                         map[string]int
+	sectionsNonEmpty                int
 }
 
 // roundTrip exports `n` (as-is, or zero-height after the modules' own preparation), imports the result into a
@@ -566,6 +566,9 @@ func (m *c12Machine) Classify() (bool, []string) {
 			cl = append(cl, name)
 			durable++
 		}
+	}
+	if passedProposals(m.n) > 0 {
+		cl = append(cl, "params-changed-by-proposal")
 	}
 	sort.Strings(cl)
 	for k, v := range m.cnt.skipped {
